@@ -13,6 +13,12 @@ use rml_rtmp::sessions::ClientSessionEvent;
 use serde_json::{json, Value};
 use std::collections::{BTreeMap, BTreeSet};
 
+/// Names chosen so that trimming, case folding, truncation at NUL, query-string stripping or percent
+/// decoding anywhere between the request and the event/command that carries them would be visible.
+pub const APP_A: &str = "A pp";
+pub const KEY1: &str = "K1 ?a=b&c%20 ";
+pub const KEY2: &str = " k\u{e9}\u{0}2";
+
 #[derive(Clone, Debug, PartialEq, Eq, Hash)]
 pub enum CSt {
     Disconnected,
@@ -485,11 +491,11 @@ pub fn actions_for(m: &ClientModel, max_outstanding: usize, extended: bool) -> V
     let room = m.out.len() < max_outstanding;
     // requests are always in the menu when they must be refused; when permitted only while there is room
     if m.st != CSt::Disconnected || room {
-        a.push(CAct::RequestConnection { app: "a".into() });
+        a.push(CAct::RequestConnection { app: APP_A.into() });
     }
     if m.st != CSt::Connected || room {
-        a.push(CAct::RequestPlayback { key: "k1".into() });
-        a.push(CAct::RequestPublishing { key: "k2".into(), kind: 0 });
+        a.push(CAct::RequestPlayback { key: KEY1.into() });
+        a.push(CAct::RequestPublishing { key: KEY2.into(), kind: 0 });
         if extended {
             a.push(CAct::RequestPublishing { key: "k3".into(), kind: 1 });
         }
@@ -615,13 +621,13 @@ pub fn drive(g: &G, st: St, prefix: &[CAct]) -> Result<St, (String, String)> {
 }
 
 pub fn prefixes() -> Vec<(&'static str, Vec<CAct>)> {
-    let connected = vec![CAct::RequestConnection { app: "a".into() }, CAct::Result { tx: 1.0, stream: None }];
+    let connected = vec![CAct::RequestConnection { app: APP_A.into() }, CAct::Result { tx: 1.0, stream: None }];
     let mut play_req = connected.clone();
-    play_req.extend(vec![CAct::RequestPlayback { key: "k1".into() }, CAct::Result { tx: 2.0, stream: Some(5.0) }]);
+    play_req.extend(vec![CAct::RequestPlayback { key: KEY1.into() }, CAct::Result { tx: 2.0, stream: Some(5.0) }]);
     let mut playing = play_req.clone();
     playing.push(CAct::OnStatus { code: "NetStream.Play.Start".into() });
     let mut pub_req = connected.clone();
-    pub_req.extend(vec![CAct::RequestPublishing { key: "k2".into(), kind: 0 }, CAct::Result { tx: 2.0, stream: Some(5.0) }]);
+    pub_req.extend(vec![CAct::RequestPublishing { key: KEY2.into(), kind: 0 }, CAct::Result { tx: 2.0, stream: Some(5.0) }]);
     let mut publishing = pub_req.clone();
     publishing.push(CAct::OnStatus { code: "NetStream.Publish.Start".into() });
     vec![
